@@ -29,13 +29,18 @@ import (
 	"github.com/golang/snappy"
 	"github.com/opentracing/opentracing-go"
 	"github.com/pkg/errors"
+	"github.com/prometheus/prometheus/model/exemplar"
+	"github.com/prometheus/prometheus/model/histogram"
+	"github.com/prometheus/prometheus/model/labels"
 	"github.com/prometheus/prometheus/storage"
 	"github.com/prometheus/prometheus/tsdb"
 	"google.golang.org/grpc"
+	"google.golang.org/grpc/test/bufconn"
 	"google.golang.org/grpc/codes"
 	"google.golang.org/grpc/status"
 
 	"github.com/thanos-io/thanos/pkg/receive"
+	"github.com/thanos-io/thanos/pkg/receive/writecapnp"
 	"github.com/thanos-io/thanos/pkg/store/labelpb"
 	"github.com/thanos-io/thanos/pkg/store/storepb"
 	"github.com/thanos-io/thanos/pkg/store/storepb/prompb"
@@ -113,6 +118,8 @@ type fanRun struct {
 	entered  map[wkey]bool
 	finished map[wkey]bool
 	recv     map[wkey][]string // series names received by the fake peer
+	tenantOf map[string]string // series name -> tenant under which a peer received it ("a|b" if it differs between peers)
+	codes    map[wkey]string   // capnp transport: outcome letter and the gRPC code the client reported for the write
 	stored   map[wkey]bool     // the fake peer answered ok after having been released
 	unknown  []string          // calls that match no scripted write
 	capture  bool              // record the canonical form of every series received (C26)
@@ -122,7 +129,7 @@ type fanRun struct {
 
 func newFanRun() *fanRun {
 	return &fanRun{outcome: map[wkey]byte{}, release: map[wkey]chan struct{}{}, entered: map[wkey]bool{},
-		finished: map[wkey]bool{}, recv: map[wkey][]string{}, stored: map[wkey]bool{}, wake: make(chan struct{}, 1)}
+		finished: map[wkey]bool{}, recv: map[wkey][]string{}, stored: map[wkey]bool{}, tenantOf: map[string]string{}, codes: map[wkey]string{}, wake: make(chan struct{}, 1)}
 }
 
 func (f *fanRun) pulse() {
@@ -200,16 +207,21 @@ type fakePeer struct{ e int }
 
 func (p *fakePeer) Close() error { return nil }
 
-func (p *fakePeer) RemoteWrite(ctx context.Context, in *storepb.WriteRequest, _ ...grpc.CallOption) (*storepb.WriteResponse, error) {
-	f := getRun()
+// enterWrite registers the call of a scripted write and blocks until the harness releases it or
+// the context ends; it returns the scripted outcome letter.
+func enterWrite(ctx context.Context, e int, in *storepb.WriteRequest) (f *fanRun, k wkey, o byte, err error) {
+	f = getRun()
 	if f == nil {
-		return nil, fmt.Errorf("no scripted run")
+		return nil, k, 0, fmt.Errorf("no scripted run")
 	}
-	k := wkey{p.e, int(in.Replica) - 1}
+	k = wkey{e, int(in.Replica) - 1}
 	var names, full []string
+	tenants := map[string]string{}
 	for _, tt := range in.TimeseriesTenantData {
 		for i := range tt.Timeseries {
-			names = append(names, seriesName(&tt.Timeseries[i]))
+			n := seriesName(&tt.Timeseries[i])
+			names = append(names, n)
+			tenants[n] = tt.Tenant
 			if f.capture {
 				full = append(full, showTS1(&tt.Timeseries[i]))
 			}
@@ -217,24 +229,39 @@ func (p *fakePeer) RemoteWrite(ctx context.Context, in *storepb.WriteRequest, _ 
 	}
 	f.mu.Lock()
 	f.captured = append(f.captured, full...)
+	for n, t := range tenants {
+		if old, ok := f.tenantOf[n]; ok && old != t {
+			f.tenantOf[n] = old + "|" + t
+		} else {
+			f.tenantOf[n] = t
+		}
+	}
 	rel, ok := f.release[k]
 	if !ok || f.entered[k] {
 		f.unknown = append(f.unknown, fmt.Sprintf("%d:%d:%s", k.e, k.r, strings.Join(names, ".")))
 		f.mu.Unlock()
 		f.pulse()
-		return nil, status.Error(codes.Internal, "unscripted write")
+		return f, k, 0, status.Error(codes.Internal, "unscripted write")
 	}
 	f.entered[k] = true
 	f.recv[k] = names
-	o := f.outcome[k]
+	o = f.outcome[k]
 	f.mu.Unlock()
 	f.pulse()
 	select {
 	case <-rel:
 	case <-ctx.Done():
-		return nil, ctx.Err()
+		return f, k, o, ctx.Err()
 	}
-	err := outcomeError(o)
+	return f, k, o, nil
+}
+
+func (p *fakePeer) RemoteWrite(ctx context.Context, in *storepb.WriteRequest, _ ...grpc.CallOption) (*storepb.WriteResponse, error) {
+	f, k, o, err := enterWrite(ctx, p.e, in)
+	if err != nil {
+		return nil, err
+	}
+	err = outcomeError(o)
 	if err == nil {
 		f.mu.Lock()
 		f.stored[k] = true
@@ -242,6 +269,118 @@ func (p *fakePeer) RemoteWrite(ctx context.Context, in *storepb.WriteRequest, _ 
 		return &storepb.WriteResponse{}, nil
 	}
 	return nil, err
+}
+
+// ---------------------------------------------------------------- peers reached over Cap'n Proto
+//
+// Transport "c": every endpoint is a real writecapnp.RemoteWriteClient talking over an in-memory
+// connection to a real CapNProtoServer / CapNProtoHandler / CapNProtoWriter whose tenant storage is
+// scripted: the outcome letter decides what the storage does (k stores; o: the appender rejects
+// the sample as out of order; N: the appender is not ready; x: the appender cannot be created;
+// X: the tenant storage fails).  The error travels back through the server's and the client's
+// own error mapping.  The harness releases one write at a time, so a single "current outcome"
+// per endpoint is enough.
+
+type scriptStorage struct {
+	mu      sync.Mutex
+	outcome byte
+	commits int
+}
+
+func (s *scriptStorage) get() byte {
+	s.mu.Lock()
+	defer s.mu.Unlock()
+	return s.outcome
+}
+
+func (s *scriptStorage) TenantAppendable(string) (receive.Appendable, error) {
+	if s.get() == 'X' {
+		return nil, fmt.Errorf("scripted: tenant storage failure")
+	}
+	return s, nil
+}
+
+func (s *scriptStorage) Appender(context.Context) (storage.Appender, error) {
+	switch s.get() {
+	case 'N':
+		return nil, tsdb.ErrNotReady
+	case 'x':
+		return nil, fmt.Errorf("scripted: appender failure")
+	}
+	return &scriptAppender{st: s}, nil
+}
+
+// scriptAppender implements the part of storage.Appender the receive writers use.
+type scriptAppender struct {
+	storage.Appender
+	st *scriptStorage
+}
+
+func (a *scriptAppender) GetRef(labels.Labels, uint64) (storage.SeriesRef, labels.Labels) {
+	return 0, labels.EmptyLabels()
+}
+func (a *scriptAppender) SetOptions(*storage.AppendOptions) {}
+func (a *scriptAppender) Append(storage.SeriesRef, labels.Labels, int64, float64) (storage.SeriesRef, error) {
+	if a.st.get() == 'o' {
+		return 0, storage.ErrOutOfOrderSample
+	}
+	return 1, nil
+}
+func (a *scriptAppender) AppendExemplar(storage.SeriesRef, labels.Labels, exemplar.Exemplar) (storage.SeriesRef, error) {
+	return 1, nil
+}
+func (a *scriptAppender) AppendHistogram(storage.SeriesRef, labels.Labels, int64, *histogram.Histogram, *histogram.FloatHistogram) (storage.SeriesRef, error) {
+	return 1, nil
+}
+func (a *scriptAppender) Commit() error {
+	a.st.mu.Lock()
+	a.st.commits++
+	a.st.mu.Unlock()
+	return nil
+}
+func (a *scriptAppender) Rollback() error { return nil }
+
+type capnpPeer struct {
+	e  int
+	st *scriptStorage
+	cl *writecapnp.RemoteWriteClient
+}
+
+var capnpSerial sync.Mutex
+
+func newCapnpPeer(e int) *capnpPeer {
+	st := &scriptStorage{outcome: 'k'}
+	lis := bufconn.Listen(1 << 20)
+	w := receive.NewCapNProtoWriter(log.NewNopLogger(), st, nil)
+	srv := receive.NewCapNProtoServer(lis, receive.NewCapNProtoHandler(nil, log.NewNopLogger(), w), log.NewNopLogger())
+	go func() { _ = srv.ListenAndServe() }()
+	return &capnpPeer{e: e, st: st, cl: writecapnp.NewRemoteWriteClient(lis, log.NewNopLogger())}
+}
+
+func (p *capnpPeer) Close() error { return nil }
+
+func (p *capnpPeer) RemoteWrite(ctx context.Context, in *storepb.WriteRequest, _ ...grpc.CallOption) (*storepb.WriteResponse, error) {
+	f, k, o, err := enterWrite(ctx, p.e, in)
+	if err != nil {
+		return nil, err
+	}
+	capnpSerial.Lock()
+	defer capnpSerial.Unlock()
+	p.st.mu.Lock()
+	p.st.outcome = o
+	before := p.st.commits
+	p.st.mu.Unlock()
+	resp, err := p.cl.RemoteWrite(ctx, in)
+	p.st.mu.Lock()
+	committed := p.st.commits > before
+	p.st.mu.Unlock()
+	f.mu.Lock()
+	f.codes[k] = string(o) + ":" + status.Code(err).String()
+	if err == nil && committed && o == 'k' {
+		f.stored[k] = true
+	}
+	f.mu.Unlock()
+	return resp, err
 }
 
 // ---------------------------------------------------------------- tracer that reports finished forward spans
@@ -294,7 +433,7 @@ type fanEnv struct {
 	tr   *sigTracer
 }
 
-func newFanEnv(limiter *receive.Limiter) *fanEnv {
+func newFanEnv(limiter *receive.Limiter, capnp bool) *fanEnv {
 	if limiter == nil {
 		var err error
 		limiter, err = receive.NewLimiter(nil, nil, receive.RouterIngestor, log.NewNopLogger(), time.Second)
@@ -313,6 +452,7 @@ func newFanEnv(limiter *receive.Limiter) *fanEnv {
 		Writer:                  receive.NewWriter(log.NewNopLogger(), nil, nil),
 		Limiter:                 limiter,
 		AsyncForwardWorkerCount: 16,
+		SplitTenantLabelName:    splitTenantLabel,
 	}
 	h := receive.NewHandler(log.NewNopLogger(), opts)
 	env := &fanEnv{h: h, opts: opts, ring: &scriptRing{placement: map[string][]int{}}, tr: &sigTracer{}}
@@ -320,6 +460,9 @@ func newFanEnv(limiter *receive.Limiter) *fanEnv {
 		i := endpointIndex(e)
 		if i < 0 {
 			return nil, fmt.Errorf("unknown endpoint %v", e)
+		}
+		if capnp {
+			return newCapnpPeer(i), nil
 		}
 		return &fakePeer{e: i}, nil
 	})
@@ -333,29 +476,59 @@ var (
 )
 
 func theFanEnv() *fanEnv {
-	fanOnce.Do(func() { fanE = newFanEnv(nil) })
+	fanOnce.Do(func() { fanE = newFanEnv(nil, false) })
 	return fanE
 }
+
+var (
+	fanCapnpOnce sync.Once
+	fanCapnpE    *fanEnv
+)
+
+// theCapnpFanEnv: the same handler, its peers reached over Cap'n Proto.
+func theCapnpFanEnv() *fanEnv {
+	fanCapnpOnce.Do(func() { fanCapnpE = newFanEnv(nil, true) })
+	return fanCapnpE
+}
+
+// splitTenantLabel is the handler's SplitTenantLabelName: a series carrying it is written under
+// the tenant the label names (and loses the label).
+const splitTenantLabel = "tenant_split"
 
 type scriptEntry struct {
 	k wkey
 	o byte
 }
 
-func parsePlacement(s string) ([][]int, bool) {
+// parsePlacement: series separated by `,`; a series is `[T@]e.e.e` — tenant index T (default 0)
+// and the endpoint of replica 0,1,…; tenant indices must not decrease along the request.
+func parsePlacement(s string) ([][]int, []int, bool) {
 	var pl [][]int
+	var tenants []int
 	for _, ser := range hlib.Split(s, ",") {
+		t := 0
+		if i := strings.IndexByte(ser, '@'); i >= 0 {
+			v, err := strconv.Atoi(ser[:i])
+			if err != nil || v < 0 || v > 9 {
+				return nil, nil, false
+			}
+			t, ser = v, ser[i+1:]
+		}
+		if len(tenants) > 0 && t < tenants[len(tenants)-1] {
+			return nil, nil, false
+		}
 		var row []int
-		for _, t := range hlib.Split(ser, ".") {
-			v, err := strconv.Atoi(t)
+		for _, x := range hlib.Split(ser, ".") {
+			v, err := strconv.Atoi(x)
 			if err != nil || v < 0 || v >= numEndpoints {
-				return nil, false
+				return nil, nil, false
 			}
 			row = append(row, v)
 		}
 		pl = append(pl, row)
+		tenants = append(tenants, t)
 	}
-	return pl, len(pl) > 0
+	return pl, tenants, len(pl) > 0
 }
 
 func parseScripts(s string) ([][]scriptEntry, bool) {
@@ -395,15 +568,30 @@ func expectedWrites(rf, rep int, pl [][]int) map[wkey][]int {
 	return ws
 }
 
-func makeSeries(n int) []prompb.TimeSeries {
+// makeSeries builds the series s0 … s(n-1); with split = true a series of tenant T > 0 carries the
+// split-tenant label naming tenant tT.
+func makeSeries(n int, tenants []int, split bool) []prompb.TimeSeries {
 	ts := make([]prompb.TimeSeries, n)
 	for i := range ts {
-		ts[i] = prompb.TimeSeries{
-			Labels:  []labelpb.ZLabel{{Name: "__name__", Value: fmt.Sprintf("s%d", i)}, {Name: "job", Value: "verif"}},
-			Samples: []prompb.Sample{{Timestamp: 1000 + int64(i), Value: float64(i)}},
+		ls := []labelpb.ZLabel{{Name: "__name__", Value: fmt.Sprintf("s%d", i)}, {Name: "job", Value: "verif"}}
+		if split && i < len(tenants) && tenants[i] > 0 {
+			ls = append(ls, labelpb.ZLabel{Name: splitTenantLabel, Value: fmt.Sprintf("t%d", tenants[i])})
 		}
+		ts[i] = prompb.TimeSeries{Labels: ls, Samples: []prompb.Sample{{Timestamp: 1000 + int64(i), Value: float64(i)}}}
 	}
 	return ts
+}
+
+// expectedTenant is the tenant under which series i must reach the peers.
+func expectedTenant(http1 bool, tenants []int, i int) string {
+	t := 0
+	if i < len(tenants) {
+		t = tenants[i]
+	}
+	if http1 && t == 0 {
+		return "t" // the tenant of the HTTP header
+	}
+	return fmt.Sprintf("t%d", t)
 }
 
 type fanResult struct {
@@ -411,10 +599,12 @@ type fanResult struct {
 	recv    map[wkey][]string // what the fake peers received
 	stored  map[wkey]bool
 	unknown []string
+	tenants map[string]string // series name -> tenant it arrived under
+	codes   map[wkey]string   // capnp transport: "<outcome letter>:<code the client reported>"
 }
 
 // runFan executes one request with one arrival order on the real handler.
-func (env *fanEnv) runFan(http1 bool, rf, rep int, pl [][]int, script []scriptEntry) fanResult {
+func (env *fanEnv) runFan(http1 bool, rf, rep int, pl [][]int, tenants []int, script []scriptEntry) fanResult {
 	env.opts.ReplicationFactor = uint64(rf)
 	env.ring.mu.Lock()
 	env.ring.placement = map[string][]int{}
@@ -432,7 +622,7 @@ func (env *fanEnv) runFan(http1 bool, rf, rep int, pl [][]int, script []scriptEn
 	defer setRun(nil)
 
 	ctx := tracing.ContextWithTracer(context.Background(), env.tr)
-	series := makeSeries(len(pl))
+	series := makeSeries(len(pl), tenants, http1)
 	done := make(chan string, 1)
 	go func() {
 		defer func() {
@@ -456,7 +646,17 @@ func (env *fanEnv) runFan(http1 bool, rf, rep int, pl [][]int, script []scriptEn
 			done <- strconv.Itoa(rec.Code)
 			return
 		}
-		_, err := env.h.RemoteWrite(ctx, &storepb.WriteRequest{Timeseries: series, Tenant: "t", Replica: int64(rep)})
+		// gRPC: one tuple per tenant (tenant indices are non-decreasing along the request)
+		wr := &storepb.WriteRequest{Replica: int64(rep)}
+		for i := range series {
+			name := expectedTenant(false, tenants, i)
+			if n := len(wr.TimeseriesTenantData); n == 0 || wr.TimeseriesTenantData[n-1].Tenant != name {
+				wr.TimeseriesTenantData = append(wr.TimeseriesTenantData, storepb.TimeSeriesTenantTuple{Tenant: name})
+			}
+			last := &wr.TimeseriesTenantData[len(wr.TimeseriesTenantData)-1]
+			last.Timeseries = append(last.Timeseries, series[i])
+		}
+		_, err := env.h.RemoteWrite(ctx, wr)
 		done <- grpcName(err)
 	}()
 
@@ -520,7 +720,7 @@ func (env *fanEnv) runFan(http1 bool, rf, rep int, pl [][]int, script []scriptEn
 		return true
 	})
 	f.mu.Lock()
-	res.recv, res.stored, res.unknown = f.recv, f.stored, f.unknown
+	res.recv, res.stored, res.unknown, res.tenants, res.codes = f.recv, f.stored, f.unknown, f.tenantOf, f.codes
 	f.mu.Unlock()
 	return res
 }
